@@ -398,9 +398,11 @@ def run_hist(case):
             idx = sh[t].last
             kind = rng.integers(4)
             if kind == 0:
-                pr = np.full(len(idx), float(rng.choice([1e-6, 1.0, 1e6])))
+                pr = np.full(len(idx), float(rng.choice([1e-6, 1.0, 1e6, 1e-60,
+                                                         1e60])))
             else:
-                pr = 10 ** rng.uniform(-6, 6, len(idx)) if kind == 1 else \
+                span = float(rng.choice([6, 6, 25]))  # up to 50 orders of magnitude
+                pr = 10 ** rng.uniform(-span, span, len(idx)) if kind == 1 else \
                     rng.uniform(0.1, 5.0, len(idx))
             ok, _ = guarded(res, "C08/raises/update_priority",
                             buf.update_priority, pr.copy())
